@@ -77,3 +77,60 @@ Definition lut_entry (x : Z) : Z :=
 Fixpoint popcount_nat (n : nat) (x : Z) : Z :=
   match n with O => 0 | S k => (if Z.testbit x (Z.of_nat k) then 1 else 0) + popcount_nat k x end.
 Definition popcount8 (x : Z) : Z := popcount_nat 8 x.
+
+(* ---- byte-level model of the bulk operations (packedBoolArray.py __setitem__ with a slice,
+   &= |= ^= with a boolean or an aligned packed operand, invert): the view is split with
+   extract_fml; the edge bytes are unpacked, modified on their bit range and packed again, the middle
+   bytes are operated on whole ---- *)
+Inductive bop := BSet | BAnd | BOr | BXor | BInv.
+
+Definition bfun (o : bop) (x y : bool) : bool :=
+  match o with BSet => y | BAnd => x && y | BOr => x || y | BXor => xorb x y | BInv => negb x end.
+
+Definition bits8 : list Z := [0; 1; 2; 3; 4; 5; 6; 7].
+
+(* np.packbits(bits, bitorder="little")[0] *)
+Definition pack8 (l : list bool) : Z := fold_right (fun (x : bool) acc => Z.b2z x + 2 * acc) 0 l.
+
+(* unpack the byte, apply the operation on bits [lo, hi) with the operand byte's bits, pack *)
+Definition edge_byte (o : bop) (lo hi : Z) (b ob : Z) : Z :=
+  pack8 (map (fun k => let x := Z.testbit b k in
+                       if (lo <=? k) && (k <? hi) then bfun o x (Z.testbit ob k) else x) bits8).
+
+(* whole-byte operation (uint8): value, &, |, ^, ~ *)
+Definition mid_byte (o : bop) (b ob : Z) : Z :=
+  match o with
+  | BSet => ob
+  | BAnd => Z.land b ob
+  | BOr => Z.lor b ob
+  | BXor => Z.lxor b ob
+  | BInv => 255 - b
+  end.
+
+(* [data] = the view's byte buffer (self._data), [v] the view with vds = 0, vde = len(data);
+   [ob j] = the operand's byte j (255 / 0 everywhere for a boolean operand) *)
+Definition bulk_op (o : bop) (v : pview) (data : list Z) (ob : Z -> Z) : list Z :=
+  let d := extract_fml v in
+  let nd := vndata v in
+  let d1 := if f_lo d <? f_hi d
+            then zupd data 0 (edge_byte o (f_lo d) (f_hi d) (znth 0 data 0) (ob 0)) else data in
+  let d2 := if l_lo d <? l_hi d
+            then zupd d1 (nd - 1) (edge_byte o (l_lo d) (l_hi d) (znth 0 data (nd - 1)) (ob (nd - 1))) else d1 in
+  fold_left (fun t j => zupd t j (mid_byte o (znth 0 t j) (ob j))) (zrange (m_lo d) (m_hi d)) d2.
+
+
+(* ---- index-array operations: _set_bits_at_locs / _clear_bits_at_locs / _test_bits_at_locs:
+   np.bitwise_or.at(data, locs // 8, 1 << locs % 8), np.bitwise_and.at(data, locs // 8, ~(1 << locs % 8)),
+   sequential over (possibly repeated) locations already shifted by the start index ---- *)
+Definition bit (data : list Z) (k : Z) : bool := Z.testbit (znth 0 data (k / 8)) (k mod 8).
+
+Definition set_bit_at (t : list Z) (p : Z) : list Z :=
+  zupd t (p / 8) (Z.lor (znth 0 t (p / 8)) (2 ^ (p mod 8))).
+Definition clear_bit_at (t : list Z) (p : Z) : list Z :=
+  zupd t (p / 8) (Z.land (znth 0 t (p / 8)) (255 - 2 ^ (p mod 8))).
+Definition test_bit_at (t : list Z) (p : Z) : bool :=
+  negb (Z.land (znth 0 t (p / 8)) (2 ^ (p mod 8)) =? 0).
+
+Definition set_bits (locs : list Z) (data : list Z) : list Z := fold_left set_bit_at locs data.
+Definition clear_bits (locs : list Z) (data : list Z) : list Z := fold_left clear_bit_at locs data.
+
